@@ -4,7 +4,7 @@ use vstd::prelude::*;
 use std::num::TryFromIntError;
 verus! {
 //@ default-tags C12
-//@ verus-flags --no-lifetime
+//@ verus-flags --no-lifetime --rlimit 60
 //@ include ../_common/str_prelude.rs
 // str::to_ascii_lowercase and the bytes of the String it returns (trusted; present so that a constructor that canonicalises its
 // argument before hashing is decided instead of being outside the dialect)
